@@ -1468,3 +1468,358 @@ Proof.
   intro x. pose proof (sem_exprs_perm ln e _ _ (hdr_perm ps ret) x) as Hp.
   rewrite sem_exprs_app, in_app_iff in Hp. rewrite sem_oexpr_eq. rewrite !in_app_iff. tauto.
 Qed.
+
+Lemma incl_app_l : forall A (a b c : list A), incl (a ++ b) c -> incl a c.
+Proof. intros A a b c H y Hy. apply H. apply in_app_iff. auto. Qed.
+Lemma incl_app_r : forall A (a b c : list A), incl (a ++ b) c -> incl b c.
+Proof. intros A a b c H y Hy. apply H. apply in_app_iff. auto. Qed.
+
+Lemma stmt_u3 : forall x, PUS x.
+Proof.
+  induction x using stmt_ind'; try (intros Hs; discriminate); try (intros Hs Hn; discriminate); try rename e into e0;
+    intros Hs Hn exp l L' acc accs ex s e tr Lf Mdyn Mb HI Hin HBS e' rds Esem; unfold NS in *.
+  - (* SExpr *)
+    cbn in Esem. injection Esem as <- <-. cbn [s2_stmt vstmt bsrcs map] in *.
+    apply (expr_ln3 e0 ln); auto.
+  - (* SAssign *)
+    cbn [s2_stmt] in Hs. apply andb_true_iff in Hs as [H1 H2].
+    rewrite sem_stmt_assign in Esem. cbv zeta in Esem. cbn [vstmt bsrcs] in *. rewrite tgo_eq in *. rewrite map_fst_others in Hin.
+    destruct (expr_ln3 v ln _ _ _ _ _ _ _ _ _ _ _ _ H1 HI) as (P1 & Ln1). cbv zeta in P1, Ln1.
+    assert (Et : fold_left (sem_target_step ln) ts (e, []) = (ebind_all (others (flat_map target_names ts)) e, [])).
+    { destruct P1 as (expa & _ & Ia & _). cbn [map] in Ia. rewrite app_nil_r in Ia.
+      destruct (targets_inv ln ts _ _ _ _ _ _ _ _ _ [] (v_f _ _ _ _ _ _ _ _ _ _ _ _ Ia) H2 Hin) as (E & _). exact E. }
+    rewrite Et in Esem. injection Esem as <- <-. rewrite app_nil_r.
+    change (others (flat_map target_names ts)) with ([] ++ others (flat_map target_names ts)) at 2.
+    eapply PostS3_then_bind. exact P1. intros exp1 I1.
+    destruct (targets_u3 ts _ _ _ _ _ _ _ _ _ _ _ _ I1 H2) as (I2 & N2 & _). { exact Hin. } { exact HBS. }
+    cbv zeta in I2, N2. rewrite map_fst_others. split. exact I2. exact N2.
+  - (* SAugAssign *)
+    cbn [s2_stmt] in Hs. apply andb_true_iff in Hs as [H12 H3]. apply andb_true_iff in H12 as [H1 H2].
+    apply is_nil_true in H1. subst a. apply not_star_neq in H2.
+    cbn in Esem. injection Esem as <- <-. cbn [vstmt bsrcs map fst] in *.
+    change [(n, BOther)] with ([] ++ others [n]).
+    change ((ln, n, resolve n e) :: sem_expr ln e v) with ([(ln, n, resolve n e)] ++ sem_expr ln e v).
+    eapply PostS3_then_bind.
+    2:{ intros exp2 I2.
+        destruct (binds_u3 [n] _ _ _ _ _ _ _ _ _ _ _ _ I2) as (I3 & N3 & _).
+        { constructor; auto. } { exact Hin. } { exact HBS. }
+        cbv zeta in I3, N3. cbn [fold_left] in I3, N3. rewrite map_fst_others. split. exact I3. exact N3. }
+    change (@nil (name * bsrc)) with (@nil (name * bsrc) ++ []).
+    eapply PostS3_seq.
+    { destruct (load_u3 _ _ _ _ _ _ _ _ _ _ _ _ n [] (Inv3_with_ln _ _ _ _ _ _ _ _ _ _ _ _ ln HI)) as (exp1 & X1 & I1 & Ln1 & N1).
+      exists exp1. cbn [map]. rewrite app_nil_r, mdyn_nil, mbot_nil. split. exact X1. split. exact I1. exact N1. }
+    intros exp1 I1.
+    assert (Ln1 : lineno (load (with_ln s ln) (stack_of (l :: L')) [n]) = ln).
+    { destruct (load_u3 _ _ _ _ _ _ _ _ _ _ _ _ n [] (Inv3_with_ln _ _ _ _ _ _ _ _ _ _ _ _ ln HI)) as (? & _ & _ & Lnx & _). exact Lnx. }
+    destruct (expr_cur3 v _ _ _ _ _ _ _ _ _ _ _ _ H3 I1) as (P2 & _). cbv zeta in P2. rewrite Ln1 in P2. exact P2.
+  - (* SDef *)
+    apply (def_u3 ln nm decos ps ret body (block_u3 body H) Hs Hn _ _ _ _ _ _ _ _ _ _ _ _ HI Hin HBS _ _ Esem).
+  - (* SFor *)
+    cbn [s2_stmt noimp_stmt] in Hs, Hn. rewrite !s2_blk_fix in Hs. rewrite !noimp_blk_fix in Hn.
+    apply andb_true_iff in Hs as [H123 H4]. apply andb_true_iff in H123 as [H12 H3]. apply andb_true_iff in H12 as [H1 H2].
+    apply andb_true_iff in Hn as [Nb No].
+    rewrite vstmt_for. rewrite sem_stmt_for in Esem. cbv zeta in Esem.
+    cbn [bsrcs] in *. rewrite !bsrcs_blk_fix in *. rewrite !map_app, map_fst_others in Hin.
+    fold (binds_block false b) (binds_block false o) in *.
+    assert (Et : exec_target_env ln e t = (ebind_all (others (target_names t)) e, [])).
+    { unfold exec_target_env. rewrite exec_target_s1 by exact H1. reflexivity. }
+    rewrite Et in Esem.
+    destruct (sem_block b (ebind_all (others (target_names t)) e)) as [e2 r2] eqn:E2.
+    destruct (sem_block o e2) as [e3 r3] eqn:E3. injection Esem as <- <-.
+    change (others (target_names t) ++ bsrcs_block false b ++ bsrcs_block false o)
+      with (([] ++ others (target_names t)) ++ bsrcs_block false b ++ bsrcs_block false o).
+    eapply PostS3_seq.
+    { eapply PostS3_then_bind. apply (expr_ln3 it ln); eauto. intros exp1 I1.
+      destruct (target_u3 t _ _ _ _ _ _ _ _ _ _ _ _ I1 H1) as (I2 & N2 & _).
+      { exact (incl_app_l _ _ _ _ Hin). } { intros E. exact (incl_app_l _ _ _ _ (HBS E)). }
+      cbv zeta in I2, N2. rewrite map_fst_others. split. exact I2. exact N2. }
+    intros exp2 I2.
+    eapply PostS3_seq.
+    { apply (block_u3 b H H3 Nb _ _ _ _ _ _ _ _ _ _ _ _ I2 (incl_app_l _ _ _ _ (incl_app_r _ _ _ _ Hin))). 
+      intros E. exact (incl_app_l _ _ _ _ (incl_app_r _ _ _ _ (HBS E))). exact E2. }
+    intros exp3 I3.
+    apply (block_u3 o H0 H4 No _ _ _ _ _ _ _ _ _ _ _ _ I3 (incl_app_r _ _ _ _ (incl_app_r _ _ _ _ Hin))).
+    intros E. exact (incl_app_r _ _ _ _ (incl_app_r _ _ _ _ (HBS E))). exact E3.
+  - (* SWhile *)
+    cbn [s2_stmt noimp_stmt] in Hs, Hn. rewrite !s2_blk_fix in Hs. rewrite !noimp_blk_fix in Hn.
+    apply andb_true_iff in Hs as [H12 H3]. apply andb_true_iff in H12 as [H1 H2]. apply is_nil_true in H3. subst o.
+    apply andb_true_iff in Hn as [Nb _].
+    rewrite vstmt_while. rewrite sem_stmt_while in Esem. cbv zeta in Esem.
+    cbn [bsrcs] in *. rewrite !bsrcs_blk_fix in *. rewrite app_nil_r in *. fold (binds_block false b) in *.
+    destruct (sem_block b e) as [e2 r2] eqn:E2. injection Esem as <- <-.
+    change (bsrcs_block false b) with ([] ++ bsrcs_block false b). unfold vblock at 1. cbn [fold_left].
+    eapply PostS3_seq. apply (expr_ln3 t ln); eauto. intros exp1 I1.
+    apply (block_u3 b H H2 Nb _ _ _ _ _ _ _ _ _ _ _ _ I1 Hin HBS _ _ E2).
+  - (* SIf *)
+    cbn [s2_stmt noimp_stmt] in Hs, Hn. rewrite !s2_blk_fix in Hs. rewrite !noimp_blk_fix in Hn.
+    apply andb_true_iff in Hs as [H12 H3]. apply andb_true_iff in H12 as [H1 H2]. apply is_nil_true in H3. subst o.
+    apply andb_true_iff in Hn as [Nb _].
+    rewrite vstmt_if. rewrite sem_stmt_if in Esem. cbv zeta in Esem.
+    cbn [bsrcs] in *. rewrite !bsrcs_blk_fix in *. rewrite app_nil_r in *. fold (binds_block false b) in *.
+    destruct (sem_block b e) as [e2 r2] eqn:E2. injection Esem as <- <-.
+    change (bsrcs_block false b) with ([] ++ bsrcs_block false b). unfold vblock at 1. cbn [fold_left].
+    eapply PostS3_seq. apply (expr_ln3 t ln); eauto. intros exp1 I1.
+    apply (block_u3 b H H2 Nb _ _ _ _ _ _ _ _ _ _ _ _ I1 Hin HBS _ _ E2).
+  - (* SWith *)
+    cbn [s2_stmt noimp_stmt] in Hs, Hn. rewrite !s2_blk_fix in Hs. rewrite !noimp_blk_fix in Hn. apply andb_true_iff in Hs as [H1 H2].
+    rewrite vstmt_with. rewrite sem_stmt_with in Esem.
+    cbn [bsrcs] in *. rewrite !bsrcs_blk_fix in *. rewrite map_app, map_fst_others in Hin. fold (binds_block false b) in *.
+    change (flat_map (fun it : expr * option target => match snd it with Some t => target_names t | None => [] end) items)
+      with (flat_map wnames items) in *.
+    destruct (with_items_u3 ln items _ _ _ _ _ _ _ _ _ _ _ _ [] (Inv3_with_ln _ _ _ _ _ _ _ _ _ _ _ _ ln HI) eq_refl H1 (incl_app_l _ _ _ _ Hin))
+      as (e1 & r1 & E1 & P1).
+    { intros E. exact (incl_app_l _ _ _ _ (HBS E)). }
+    cbv zeta in P1. rewrite E1 in Esem. cbn [app] in Esem.
+    destruct (sem_block b e1) as [e2 r2] eqn:E2. injection Esem as <- <-.
+    eapply PostS3_seq.
+    { destruct P1 as (exp1 & X1 & I1 & N1). exists exp1. split. exact X1. split. exact I1. exact N1. }
+    intros exp1 I1. apply (block_u3 b H H2 Hn _ _ _ _ _ _ _ _ _ _ _ _ I1). exact (incl_app_r _ _ _ _ Hin).
+    intros E. exact (incl_app_r _ _ _ _ (HBS E)). exact E2.
+  - (* STry *)
+    cbn [s2_stmt noimp_stmt] in Hs, Hn. rewrite !s2_blk_fix in Hs. rewrite !noimp_blk_fix in Hn.
+    apply andb_true_iff in Hs as [Habc Hd]. apply andb_true_iff in Habc as [Hab Hc]. apply andb_true_iff in Hab as [Ha Hb].
+    apply is_nil_true in Hb. subst hs.
+    apply andb_true_iff in Hn as [Hn Nd]. apply andb_true_iff in Hn as [Hn Nc]. apply andb_true_iff in Hn as [Na _].
+    rewrite vstmt_try_nohandler. rewrite sem_stmt_try in Esem.
+    cbn [bsrcs] in *. rewrite !bsrcs_blk_fix in *. cbn [app] in *. rewrite !map_app in Hin.
+    fold (binds_block false b) (binds_block false o) (binds_block false f) in *.
+    destruct (sem_block b e) as [e1 r1] eqn:E1. destruct (sem_block o e1) as [e2 r2] eqn:E2.
+    destruct (sem_block f e2) as [e3 r3] eqn:E3. injection Esem as <- <-.
+    eapply PostS3_seq.
+    { destruct (block_u3 b H Ha Na _ _ _ _ _ _ _ _ _ _ _ _ (Inv3_with_ln _ _ _ _ _ _ _ _ _ _ _ _ ln HI) (incl_app_l _ _ _ _ Hin)) with (e' := e1) (rds := r1)
+        as (exp1 & X1 & I1 & N1). intros E. exact (incl_app_l _ _ _ _ (HBS E)). exact E1.
+      exists exp1. split. exact X1. split. exact I1. exact N1. }
+    intros exp1 I1. eapply PostS3_seq.
+    { apply (block_u3 o H1 Hc Nc _ _ _ _ _ _ _ _ _ _ _ _ I1 (incl_app_l _ _ _ _ (incl_app_r _ _ _ _ Hin))).
+      intros E. exact (incl_app_l _ _ _ _ (incl_app_r _ _ _ _ (HBS E))). exact E2. }
+    intros exp2 I2.
+    apply (block_u3 f H2 Hd Nd _ _ _ _ _ _ _ _ _ _ _ _ I2 (incl_app_r _ _ _ _ (incl_app_r _ _ _ _ Hin))).
+    intros E. exact (incl_app_r _ _ _ _ (incl_app_r _ _ _ _ (HBS E))). exact E3.
+  - (* SPass *)
+    cbn in Esem. injection Esem as <- <-. cbn [vstmt bsrcs map].
+    destruct (PostS3_refl _ _ _ _ _ _ _ _ _ _ _ _ (Inv3_with_ln _ _ _ _ _ _ _ _ _ _ _ _ ln HI)) as (exp1 & X1 & I1 & N1).
+    exists exp1. split. exact X1. split. exact I1. exact N1.
+Qed.
+
+(* ---------- the top level of the module: import statements ---------- *)
+Hypothesis HB : l_B lm = map fst BS.
+
+Lemma top_absent : forall exp acc accs ex s e tr Mdyn Mb done a b rest,
+  Inv3 exp lm [] acc accs ex s e tr [] Mdyn Mb -> acc = map fst done -> BS = done ++ (a, b) :: rest ->
+  count_name a (map fst BS) = 1 -> dict_get (scope_dict s T) [a] = None.
+Proof.
+  intros exp acc accs ex s e tr Mdyn Mb done a b rest H3 Hacc HBS Hc.
+  apply dict_get_none_er. destruct (has (er s) T a) eqn:E; auto. exfalso.
+  pose proof (v_f _ _ _ _ _ _ _ _ _ _ _ _ H3) as HI.
+  pose proof (st_top _ _ _ _ _ (i_st _ _ _ _ _ _ _ _ _ HI)) as Ht. inversion Ht as [|? ? ? ? [Ht1 _] _]; subst.
+  apply Ht1 in E. pose proof (cx_own _ _ (i_cx _ _ _ _ _ _ _ _ _ HI)) as Ho. cbn in Ho. rewrite Ho in E. cbn [app] in E.
+  rewrite HBS, map_app, count_name_app in Hc. cbn [map fst count_name] in Hc. rewrite N.eqb_refl in Hc.
+  apply count_name_In in E. lia.
+Qed.
+
+Lemma pairs_app_one : forall s ck, pairs (with_checkers s (checkers s ++ [ck])) = pairs s ++ [(c_line ck, c_imp ck)].
+Proof. intros. unfold pairs. cbn [checkers with_checkers]. rewrite map_app. reflexivity. Qed.
+
+(* one import binding: (a, BImp ln imp), stored under the key [a] with a fresh checker *)
+Lemma import_bind_top : forall exp acc accs ex s e tr Mdyn Mb done a imp rest,
+  Inv3 exp lm [] acc accs ex s e tr [] Mdyn Mb -> acc = map fst done -> BS = done ++ (a, BImp (lineno s) imp) :: rest ->
+  a <> n_star -> pairs s = imp_events done ->
+  let cid := length (checkers s) in
+  let s0 := with_checkers s (checkers s ++ [mkChecker imp (lineno s) false]) in
+  let s' := store true s0 (stack_of [lm]) [a] (Chk cid) in
+  Inv2 exp lm [] (acc ++ [a]) accs ex (er s') (ebind a (BImp (lineno s) imp) e) tr ->
+  Inv3 exp lm [] (acc ++ [a]) accs ex s' (ebind a (BImp (lineno s) imp) e) tr []
+       ((a, BImp (lineno s) imp) :: Mdyn) (bind a (BImp (lineno s) imp) Mb) /\
+  pairs s' = imp_events (done ++ [(a, BImp (lineno s) imp)]).
+Proof.
+  intros exp acc accs ex s e tr Mdyn Mb done a imp rest H3 Hacc HBS Ha Hp. cbv zeta. intro HI'.
+  pose proof H3 as [HI HL HU HEU Hfin Hdyn Hown].
+  assert (Hin : In (a, BImp (lineno s) imp) BS) by (rewrite HBS; apply in_app_iff; right; left; reflexivity).
+  destruct (HO _ _ _ Hin) as [Hc _].
+  pose proof (top_absent _ _ _ _ _ _ _ _ _ _ _ _ _ H3 Hacc HBS Hc) as Hnone.
+  set (s0 := with_checkers s (checkers s ++ [mkChecker imp (lineno s) false])) in *.
+  assert (Etop : top (stack_of [lm]) = T) by apply stack_top.
+  assert (Hno : forall c, dict_get (scope_dict s0 (top (stack_of [lm]))) [a] <> Some (Chk c)).
+  { intro c. rewrite Etop. change (scope_dict s0 T) with (scope_dict s T). rewrite Hnone. discriminate. }
+  rewrite (store_true_noreport s0) in * by exact Hno. rewrite Etop in *.
+  pose proof (i_env _ _ _ _ _ _ _ _ _ HI) as HE. destruct e as [|f [|? ?]]; try contradiction. cbn in HEU. subst f.
+  split.
+  - constructor; auto.
+    + apply UI_set_top_imp; auto.
+    + reflexivity.
+    + cbn [is_nil fdyn bind] in *. rewrite Hdyn. reflexivity.
+  - rewrite pairs_set_in_scope. unfold s0. rewrite pairs_app_one, Hp, imp_events_app. reflexivity.
+Qed.
+
+Lemma store_import_u1 : forall s stk it, u1_import_item it = true ->
+  exists a imp, import_bsrcs (lineno s) it = [(a, BImp (lineno s) imp)] /\ a <> n_star /\
+    store_import true s stk (fst it) (snd it) None =
+    store true (with_checkers s (checkers s ++ [mkChecker imp (lineno s) false])) stk [a] (Chk (length (checkers s))).
+Proof.
+  intros s stk [aname asname] H. unfold u1_import_item, s1_import_item in H. cbn [fst snd] in *.
+  apply andb_true_iff in H as [H12 H3]. apply andb_true_iff in H12 as [H1 H2].
+  destruct aname as [|r rest]; try discriminate. apply not_star_neq in H1.
+  assert (Estar : dotted_eqb (r :: rest) [n_star] = false).
+  { apply dotted_eqb_neq. intro E. injection E as E _. contradiction. }
+  unfold store_import, import_bsrcs. cbn [fst snd negb orb]. rewrite Estar. cbn [orb].
+  destruct asname as [a|].
+  - apply not_star_neq in H2. exists a, (r :: rest, [a]). split. reflexivity. split. exact H2. reflexivity.
+  - destruct rest as [|x rest']; try discriminate. exists r, ([r], [r]). split. reflexivity. split. exact H1. reflexivity.
+Qed.
+
+Lemma store_from_u1 : forall s stk m it, not_future m = true -> s1_from_item it = true ->
+  exists a imp, importfrom_bsrcs (lineno s) m it = [(a, BImp (lineno s) imp)] /\ a <> n_star /\
+    store_import true s stk [fst it] (snd it) (Some m) =
+    store true (with_checkers s (checkers s ++ [mkChecker imp (lineno s) false])) stk [a] (Chk (length (checkers s))).
+Proof.
+  intros s stk m [nm asname] Hm H. unfold s1_from_item in H. cbn [fst snd] in *. apply andb_true_iff in H as [H1 H2].
+  apply not_star_neq in H1. assert (E : N.eqb nm n_star = false) by (apply N.eqb_neq; exact H1).
+  unfold not_future in Hm. apply negb_true_iff in Hm.
+  unfold store_import, importfrom_bsrcs. cbn [fst snd negb orb dotted_eqb]. rewrite E, Hm. cbn [andb orb].
+  destruct asname as [a|].
+  - apply not_star_neq in H2. exists a, (m ++ [nm], [a]). split. reflexivity. split. exact H2. reflexivity.
+  - exists nm, (m ++ [nm], [nm]). split. reflexivity. split. exact H1. reflexivity.
+Qed.
+
+Lemma import_items_top : forall ln items exp acc accs ex s e tr Mdyn Mb done rest,
+  Inv3 exp lm [] acc accs ex s e tr [] Mdyn Mb -> acc = map fst done ->
+  BS = done ++ flat_map (import_bsrcs ln) items ++ rest -> forallb u1_import_item items = true ->
+  lineno s = ln -> pairs s = imp_events done ->
+  let s' := fold_left (fun s it => store_import true s (stack_of [lm]) (fst it) (snd it) None) items s in
+  let bs := flat_map (import_bsrcs ln) items in
+  Inv3 exp lm [] (acc ++ map fst bs) accs ex s' (ebind_all bs e) tr [] (rev bs ++ Mdyn) (bind_all bs Mb) /\
+  next_id s' = next_id s /\ pairs s' = imp_events (done ++ bs).
+Proof.
+  intros ln items. induction items as [|it items IH]; intros exp acc accs ex s e tr Mdyn Mb done rest H3 Hacc HBS Hs Hln Hp;
+    cbn [flat_map fold_left map] in *.
+  - rewrite !app_nil_r, ebind_all_nil. auto. eapply Inv2_nonempty. apply (v_f _ _ _ _ _ _ _ _ _ _ _ _ H3).
+  - cbn in Hs. apply andb_true_iff in Hs as [H1 H2]. subst ln.
+    destruct (store_import_u1 s (stack_of [lm]) it H1) as (a & imp & Eb & Ha & Est). rewrite Eb in *.
+    cbn [app map fst] in *.
+    pose proof (v_f _ _ _ _ _ _ _ _ _ _ _ _ H3) as HI.
+    assert (Hs1 : s1_import_item it = true) by (unfold u1_import_item in H1; apply andb_true_iff in H1 as [A _]; exact A).
+    destruct (import_item_inv (lineno s) it _ _ _ _ _ _ _ _ _ HI Hs1) as (I1 & N1 & Ln1).
+    { rewrite Eb. cbn [map fst]. intros y [<-|[]]. rewrite HB, HBS, map_app. apply in_app_iff. right. left. reflexivity. }
+    cbv zeta in I1, N1, Ln1. rewrite <- er_import_item in I1, N1, Ln1 by exact H1. rewrite Eb in I1. cbn [map fst] in I1.
+    rewrite ebind_all_one in I1. rewrite Est in I1, N1, Ln1 |- *.
+    destruct (import_bind_top exp acc accs ex s e tr Mdyn Mb done a imp (flat_map (import_bsrcs (lineno s)) items ++ rest) H3 Hacc) as (I2 & P2); auto.
+    set (s1 := store true (with_checkers s (checkers s ++ [mkChecker imp (lineno s) false])) (stack_of [lm]) [a] (Chk (length (checkers s)))) in *.
+    destruct (IH _ _ _ _ _ _ _ _ _ (done ++ [(a, BImp (lineno s) imp)]) rest I2) as (I3 & N3 & P3); auto.
+    { rewrite map_app, Hacc. reflexivity. } { rewrite <- app_assoc. exact HBS. }
+    cbv zeta in I3, N3, P3.
+    change ((a, BImp (lineno s) imp) :: flat_map (import_bsrcs (lineno s)) items) with ([(a, BImp (lineno s) imp)] ++ flat_map (import_bsrcs (lineno s)) items).
+    rewrite ebind_all_app, bind_all_app, rev_app_distr, <- !app_assoc. cbn [rev app].
+    rewrite <- !app_assoc in I3, P3. cbn [app] in I3, P3. rewrite ebind_all_one.
+    split. exact I3. split. cbn [next_id er] in N1. lia. exact P3.
+Qed.
+
+Lemma from_items_top : forall ln m items exp acc accs ex s e tr Mdyn Mb done rest,
+  Inv3 exp lm [] acc accs ex s e tr [] Mdyn Mb -> acc = map fst done ->
+  BS = done ++ flat_map (importfrom_bsrcs ln m) items ++ rest -> not_future m = true -> forallb s1_from_item items = true ->
+  lineno s = ln -> pairs s = imp_events done ->
+  let s' := fold_left (fun s it => store_import true s (stack_of [lm]) [fst it] (snd it) (Some m)) items s in
+  let bs := flat_map (importfrom_bsrcs ln m) items in
+  Inv3 exp lm [] (acc ++ map fst bs) accs ex s' (ebind_all bs e) tr [] (rev bs ++ Mdyn) (bind_all bs Mb) /\
+  next_id s' = next_id s /\ pairs s' = imp_events (done ++ bs).
+Proof.
+  intros ln m items. induction items as [|it items IH]; intros exp acc accs ex s e tr Mdyn Mb done rest H3 Hacc HBS Hm Hs Hln Hp;
+    cbn [flat_map fold_left map] in *.
+  - rewrite !app_nil_r, ebind_all_nil. auto. eapply Inv2_nonempty. apply (v_f _ _ _ _ _ _ _ _ _ _ _ _ H3).
+  - cbn in Hs. apply andb_true_iff in Hs as [H1 H2]. subst ln.
+    destruct (store_from_u1 s (stack_of [lm]) m it Hm H1) as (a & imp & Eb & Ha & Est). rewrite Eb in *.
+    cbn [app map fst] in *.
+    pose proof (v_f _ _ _ _ _ _ _ _ _ _ _ _ H3) as HI.
+    destruct (from_item_inv (lineno s) m it _ _ _ _ _ _ _ _ _ HI H1) as (I1 & N1 & Ln1).
+    { rewrite Eb. cbn [map fst]. intros y [<-|[]]. rewrite HB, HBS, map_app. apply in_app_iff. right. left. reflexivity. }
+    cbv zeta in I1, N1, Ln1. rewrite <- er_from_item in I1, N1, Ln1 by assumption. rewrite Eb in I1. cbn [map fst] in I1.
+    rewrite ebind_all_one in I1. rewrite Est in I1, N1, Ln1 |- *.
+    destruct (import_bind_top exp acc accs ex s e tr Mdyn Mb done a imp (flat_map (importfrom_bsrcs (lineno s) m) items ++ rest) H3 Hacc) as (I2 & P2); auto.
+    set (s1 := store true (with_checkers s (checkers s ++ [mkChecker imp (lineno s) false])) (stack_of [lm]) [a] (Chk (length (checkers s)))) in *.
+    destruct (IH _ _ _ _ _ _ _ _ _ (done ++ [(a, BImp (lineno s) imp)]) rest I2) as (I3 & N3 & P3); auto.
+    { rewrite map_app, Hacc. reflexivity. } { rewrite <- app_assoc. exact HBS. }
+    cbv zeta in I3, N3, P3.
+    change ((a, BImp (lineno s) imp) :: flat_map (importfrom_bsrcs (lineno s) m) items) with ([(a, BImp (lineno s) imp)] ++ flat_map (importfrom_bsrcs (lineno s) m) items).
+    rewrite ebind_all_app, bind_all_app, rev_app_distr, <- !app_assoc. cbn [rev app].
+    rewrite <- !app_assoc in I3, P3. cbn [app] in I3, P3. rewrite ebind_all_one.
+    split. exact I3. split. cbn [next_id er] in N1. lia. exact P3.
+Qed.
+
+Lemma imp_events_other : forall bs, (forall y b, In (y, b) bs -> b = BOther) -> imp_events bs = [].
+Proof.
+  induction bs as [|[y b] bs IH]; intro H. reflexivity. unfold imp_events in *. cbn [flat_map snd].
+  rewrite (H y b (or_introl eq_refl)). cbn. apply IH. intros y' b' Hin. eapply H. right. exact Hin.
+Qed.
+
+Definition TopStep (x : stmt) : Prop :=
+  forall exp acc accs ex s e tr Mdyn Mb done rest,
+  Inv3 exp lm [] acc accs ex s e tr [] Mdyn Mb -> acc = map fst done -> BS = done ++ bsrcs false x ++ rest ->
+  pairs s = imp_events done ->
+  forall e' rds, sem_stmt e x = (e', rds) ->
+  exists exp' Mdyn' Mb', ext (next_id s) exp exp' /\
+    Inv3 exp' lm [] (acc ++ NS x) accs ex (vstmt true x (stack_of [lm]) s) e' (tr ++ rds) [] Mdyn' Mb' /\
+    next_id s <= next_id (vstmt true x (stack_of [lm]) s) /\
+    pairs (vstmt true x (stack_of [lm]) s) = imp_events (done ++ bsrcs false x).
+
+Lemma top_other : forall x, s2_stmt x = true -> noimp_stmt x = true -> TopStep x.
+Proof.
+  intros x Hs Hn exp acc accs ex s e tr Mdyn Mb done rest H3 Hacc HBS Hp e' rds Esem.
+  destruct (stmt_u3 x Hs Hn _ _ _ _ _ _ _ _ _ _ _ _ H3) with (e' := e') (rds := rds) as (exp' & X & I' & N).
+  - unfold NS. rewrite HB, HBS, !map_app. intros y Hy. apply in_app_iff. right. apply in_app_iff. auto.
+  - intros _ y Hy. rewrite HBS. apply in_app_iff. right. apply in_app_iff. auto.
+  - exact Esem.
+  - exists exp', (mdyn [] (bsrcs false x) Mdyn), (mbot [] (bsrcs false x) Mb). split. exact X. split. exact I'. split. exact N.
+    rewrite (pairs_stmt x Hs Hn), Hp, imp_events_app, (imp_events_other (bsrcs false x)). rewrite app_nil_r. reflexivity.
+    apply noimp_other. exact Hn.
+Qed.
+
+Lemma top_import : forall ln items, forallb u1_import_item items = true -> TopStep (SImport ln items).
+Proof.
+  intros ln items Hu exp acc accs ex s e tr Mdyn Mb done rest H3 Hacc HBS Hp e' rds Esem.
+  cbn in Esem. injection Esem as <- <-. cbn [vstmt bsrcs] in *. unfold NS. cbn [bsrcs].
+  destruct (import_items_top ln items exp acc accs ex (with_ln s ln) e tr Mdyn Mb done rest (Inv3_with_ln _ _ _ _ _ _ _ _ _ _ _ _ ln H3) Hacc HBS Hu eq_refl Hp)
+    as (I1 & N1 & P1). cbv zeta in I1, N1, P1.
+  eexists exp, _, _. split. apply ext_refl. rewrite app_nil_r. split. exact I1. split. cbn [next_id with_ln] in N1. lia. exact P1.
+Qed.
+
+Lemma top_from : forall ln m items, not_future m = true -> forallb s1_from_item items = true -> TopStep (SImportFrom ln m items).
+Proof.
+  intros ln m items Hm Hu exp acc accs ex s e tr Mdyn Mb done rest H3 Hacc HBS Hp e' rds Esem.
+  cbn in Esem. injection Esem as <- <-. cbn [vstmt bsrcs] in *. unfold NS. cbn [bsrcs].
+  destruct (from_items_top ln m items exp acc accs ex (with_ln s ln) e tr Mdyn Mb done rest (Inv3_with_ln _ _ _ _ _ _ _ _ _ _ _ _ ln H3) Hacc HBS Hm Hu eq_refl Hp)
+    as (I1 & N1 & P1). cbv zeta in I1, N1, P1.
+  eexists exp, _, _. split. apply ext_refl. rewrite app_nil_r. split. exact I1. split. cbn [next_id with_ln] in N1. lia. exact P1.
+Qed.
+
+Lemma top_step : forall x, u2_top x = true -> TopStep x.
+Proof.
+  intros x H. destruct x; cbn [u2_top] in H;
+    try (apply andb_true_iff in H as [H1 H2]; apply top_other; assumption).
+  - apply top_import. exact H.
+  - apply andb_true_iff in H as [H1 H2]. apply top_from; assumption.
+Qed.
+
+Lemma top_block : forall p2 exp acc accs ex s e tr Mdyn Mb done rest,
+  u2_block p2 = true ->
+  Inv3 exp lm [] acc accs ex s e tr [] Mdyn Mb -> acc = map fst done -> BS = done ++ bsrcs_block false p2 ++ rest ->
+  pairs s = imp_events done ->
+  forall e' rds, sem_block p2 e = (e', rds) ->
+  exists exp' Mdyn' Mb',
+    Inv3 exp' lm [] (acc ++ binds_block false p2) accs ex (vblock true p2 (stack_of [lm]) s) e' (tr ++ rds) [] Mdyn' Mb' /\
+    pairs (vblock true p2 (stack_of [lm]) s) = imp_events (done ++ bsrcs_block false p2).
+Proof.
+  induction p2 as [|x p2 IH]; intros exp acc accs ex s e tr Mdyn Mb done rest Hu H3 Hacc HBS Hp e' rds E.
+  - cbn in E. injection E as <- <-. exists exp, Mdyn, Mb. cbn. rewrite !app_nil_r. auto.
+  - cbn in Hu. apply andb_true_iff in Hu as [H1 H2].
+    cbn [sem_block] in E. destruct (sem_stmt e x) as [e1 r1] eqn:E1. destruct (sem_block p2 e1) as [e2 r2] eqn:E2.
+    injection E as <- <-.
+    unfold binds_block, bsrcs_block in *. cbn [flat_map] in *. rewrite <- app_assoc in HBS.
+    destruct (top_step x H1 exp acc accs ex s e tr Mdyn Mb done _ H3 Hacc HBS Hp e1 r1 E1) as (exp1 & Md1 & Mb1 & X1 & I1 & N1 & P1).
+    destruct (IH exp1 (acc ++ NS x) accs ex _ e1 (tr ++ r1) Md1 Mb1 (done ++ bsrcs false x) rest H2 I1) with (e' := e2) (rds := r2)
+      as (exp2 & Md2 & Mb2 & I2 & P2).
+    + rewrite map_app, Hacc. reflexivity.
+    + rewrite <- app_assoc. exact HBS.
+    + exact P1.
+    + exact E2.
+    + exists exp2, Md2, Mb2. unfold vblock in *. cbn [fold_left]. rewrite map_app.
+      rewrite <- (app_assoc acc), <- (app_assoc tr) in I2. rewrite <- (app_assoc done) in P2. unfold NS in I2. split. exact I2. exact P2.
+Qed.
